@@ -16,6 +16,23 @@ theorem C20_field_matches_source :
     (∀ (o : Opts) (row : List Text), Umya.Gen.csv_row (row.map (renderField o)) = renderRow o row) :=
   ⟨Umya.Gen.gen_csv_field, Umya.Gen.gen_csv_row⟩
 
+/-- **Tie to the source (T), the whole text.**  `let mut data = String::new();` and the two nested loops of
+    `write_writer` as they are in the source — `for row in 0u32..max_row`, `for column in 0u32..max_column`,
+    `worksheet.get_cell((column + 1, row + 1))` with a missing cell read as the empty text, the field pipeline,
+    `row_vec.push`, `join(",")`, `"\r\n"` — compiled to left folds of the lifted loop bodies, give exactly the model's
+    `csvText`: for every grid, every option record of the modelled fragment (`wrap_with_char` empty or one character),
+    with the bounds `get_highest_column_and_row` gives (and, second clause, for any bounds). -/
+theorem C20_writer_matches_source :
+    (∀ (g : Grid) (o : Opts),
+      Umya.Gen.csv_text o.trim (Umya.Gen.gridCell g) (Umya.Gen.wrapText o.wrap) (highestCol g) (highestRow g) = csvText g o) ∧
+    (∀ (g : Grid) (o : Opts) (mc mr : Nat),
+      Umya.Gen.csv_text o.trim (Umya.Gen.gridCell g) (Umya.Gen.wrapText o.wrap) mc mr =
+        (List.range mr).flatMap fun row => renderRow o ((List.range mc).map fun col => g.get (row + 1) (col + 1))) :=
+  ⟨fun g o => Umya.Gen.gen_csv_text g o (highestCol g) (highestRow g), Umya.Gen.gen_csv_text⟩
+
+example : Umya.Gen.csv_text true (Umya.Gen.gridCell [((1, 1), ['a', ',']), ((2, 2), [' ', 'b'])]) [] 2 2 =
+    ['"', 'a', ',', '"', ',', '\r', '\n', ',', 'b', '\r', '\n'] := by decide
+
 example : Umya.Gen.csv_field false [] ['a', ',', '"'] = ['"', 'a', ',', '"', '"', '"'] := by decide
 example : Umya.Gen.csv_field true ['\''] [' ', 'a', '\'', ' '] = ['\'', 'a', '\'', '\'', '\''] := by decide
 example : Umya.Gen.csv_row [['a'], ['b']] = ['a', ',', 'b', '\r', '\n'] := by decide
